@@ -341,7 +341,7 @@ void harness(void)
     if (k >= fi && k < size - (li - fi)) __CPROVER_assert(ELEM_V(&v.m_data[k]) == old_j, "value: erase(first, last): elements from last on move down by last - first");
     CANARY("erase(first, last) end reachable");
 }
-''', kf=['C02_erase_range_lifetime'])
+''', kf=['C02_erase_range_lifetime'], extra={'solver': 'cadical'}, need_j=True)
 
 # ---------------------------------------------------------------------------------------------- insert(pos, value)
 INSERT_PRE = '''
@@ -363,18 +363,19 @@ INSERT_POST = '''
     if (k > pos && k <= size) __CPROVER_assert(ELEM_V(&v.m_data[k]) == old_j, "value: %(f)s: elements from pos on move up by one");
     if (size < cap) __CPROVER_assert(v.m_data == d0 && v.m_capacity == cap, "value: %(f)s: no reallocation while size() < capacity()");
 '''
-SPLIT = {'params': {'REALLOC': [0]}, 'params_thorough': {'REALLOC': [0, 1]}, 'timeout': 400}
+SPLIT = {'params': {'REALLOC': [0]}, 'params_thorough': {'REALLOC': [0, 1]}, 'timeout': 400, 'solver': 'cadical'}
+SPLIT_INS = dict(SPLIT, params={'REALLOC': [0], 'BYINDEX': [0]}, params_thorough={'REALLOC': [0, 1], 'BYINDEX': [0, 1]})
 SPLIT_NOTE = ['quick tier: the case size() < capacity() (no reallocation); thorough tier: also size() == capacity() (solver time > 60 s)']
 unit('insert_value',
      ['igris::vector::insert(const_iterator, const T&)', 'igris::vector::insert(int, const T&)', 'std::move_backward stub', 'std::prev stub'],
-     ['AD', 'CB', 'W_INSERT'],
+     ['NOREALLOC', 'AD', 'CB', 'W_INSERT'],
      'insert(pos, x), begin() <= pos <= end(), x outside the vector, from an arbitrary VEC state: size()+1, elements before pos unchanged, element pos == x, '
      'elements from pos on moved up by one, iterator to the new element returned; lifetime - only live elements are assigned to / moved from, the new '
      'last slot is constructed, nothing alive above size(); the (int pos) overload forwards to it',
      '''
 void harness(void)
 {''' + PRE + INSERT_PRE + '''
-    WIT(int, by_index);
+    int by_index = BYINDEX;       /* params: the (int pos) overload is exercised in the thorough tier */
     ELEM *val = (ELEM *)NEW_OBJ(sizeof(ELEM)); ELEM_SET(val, ELEM_LIVE, x); g_solo = val;
     if (by_index) __CPROVER_assume(pos <= 0x7fffffff);
 
@@ -383,34 +384,44 @@ void harness(void)
     __CPROVER_assert(C02_IS(val, ELEM_LIVE, x), "frame: insert(pos, x): the argument is not modified");
     CANARY("insert(pos, x) end reachable");
 }
-''', kf=['C02_insert_raw_slot'], extra=SPLIT, assumptions=SPLIT_NOTE)
+''', kf=['C02_insert_raw_slot'], extra=SPLIT_INS, assumptions=SPLIT_NOTE, need_j=True)
 
 unit('insert_alias',
      ['igris::vector::insert(const_iterator, const T&) with an element of the vector as argument'],
-     ['AD', 'CB', 'W_INSERT'],
-     'insert(pos, v[a]) (std::vector supports an argument that is an element of the vector): same result as insert(pos, copy of v[a]); the argument is '
-     'read while it is a live element of a live block',
+     ['NOREALLOC', 'AD', 'CB', 'W_INSERT'],
+     'insert(pos, v[a]) (std::vector supports an argument that is an element of the vector): the inserted element equals the value v[a] had before the '
+     'call; the argument is read while it is a live element of a live block (the shifted elements are covered by insert_value)',
      '''
 void harness(void)
-{''' + PRE + INSERT_PRE.replace('__CPROVER_assume(REALLOC ? size == cap : size < cap);   /* case split (params): with / without reallocation */', '') + '''
-    WIT(size_t, a);
-    __CPROVER_assume(a < size);
+{''' + PRE + '''
+    WIT(size_t, pos); WIT(size_t, a);
+    __CPROVER_assume(pos <= size && size < C02_MAXN);
+    __CPROVER_assume(a < size && j == a);       /* second tracked slot = the argument (value bookkeeping only) */
+    __CPROVER_assume(REALLOC ? size == cap : size < cap);   /* case split (params): with / without reallocation */
     ELEM *val = &v.m_data[a];
-    if (a != k && a != j) __CPROVER_assume(ELEM_ST(val) == ELEM_LIVE);   /* VEC at slot a */
-    x = ELEM_V(val);
+    int x = ELEM_V(val);
     /* known finding: the argument is read after the shift (a >= pos: from a moved-from element) / after the old block has been released */
     C02_KF(KF_C02_insert_self_alias, a >= pos || size == cap);
+    int old_k = k < size ? ELEM_V(&v.m_data[k]) : 0;
 
     ELEM *r = vector_insert(&v, v.m_data + pos, val);
-''' + INSERT_POST % {'f': 'insert(pos, v[a])'} + '''
+
+    c02_vec_check(&v);
+    c02_no_leak(&v, NULL);
+    __CPROVER_assert(v.m_size == size + 1, "value: insert(pos, v[a]): size() grows by one");
+    __CPROVER_assert(r == v.m_data + pos, "value: insert(pos, v[a]): returns an iterator to the inserted element");
+    if (k < pos) __CPROVER_assert(ELEM_V(&v.m_data[k]) == old_k, "value: insert(pos, v[a]): elements before pos keep their value and position");
+    if (k == pos) __CPROVER_assert(ELEM_V(&v.m_data[k]) == x, "value: insert(pos, v[a]): the element at pos has the value v[a] had before the call");
     CANARY("insert(pos, v[a]) end reachable");
 }
-''', kf=['C02_insert_raw_slot', 'C02_insert_self_alias'], extra={'timeout': 400})
+''', kf=['C02_insert_raw_slot', 'C02_insert_self_alias'], extra=dict(SPLIT, params_thorough={'REALLOC': [0]}),
+     assumptions=['insert_alias: only the case size() < capacity() is run: with a reallocation EVERY aliased call is inside the known finding C02_insert_self_alias '
+                  '(use after free; reproduced natively by c02_repro insert_self_realloc and, for push_back, probed by unit push_back)'], need_j=True)
 
 # ---------------------------------------------------------------------------------------------- emplace(pos, arg)
 unit('emplace',
      ['igris::vector::emplace(const_iterator, 1 arg)', 'std::move_backward stub', 'std::prev stub'],
-     ['AD', 'CB', 'W_EMPLACE'],
+     ['NOREALLOC', 'AD', 'CB', 'W_EMPLACE'],
      'emplace(pos, a) (one constructor argument), begin() <= pos <= end(), from an arbitrary VEC state: as insert(pos, T(a)); lifetime - T(a) is '
      'constructed over RAW storage or assigned to a live element, never placement-new\'ed over an element that has not been destroyed',
      '''
@@ -422,7 +433,7 @@ void harness(void)
 ''' + INSERT_POST % {'f': 'emplace(pos, a)'} + '''
     CANARY("emplace(pos, a) end reachable");
 }
-''', kf=['C02_insert_raw_slot', 'C02_emplace_over_live'], extra=SPLIT, assumptions=SPLIT_NOTE)
+''', kf=['C02_insert_raw_slot', 'C02_emplace_over_live'], extra=SPLIT, assumptions=SPLIT_NOTE, need_j=True)
 
 # ---------------------------------------------------------------------------------------------- two-vector scenarios
 PRE2 = '''
@@ -494,7 +505,7 @@ void harness(void)
     if (k < size) __CPROVER_assert(ELEM_V(&v.m_data[k]) == src_k, "frame: copy assignment: the source elements keep their value");
     CANARY("copy assignment end reachable");
 }
-''', kf=['C02_copy_assign_alloc0'])
+''', kf=['C02_copy_assign_alloc0'], extra={'solver': 'cadical'})
 
 unit('move_ops',
      ['igris::vector::vector(vector&&)', 'igris::vector::operator=(vector&&)', 'igris::vector::invalidate'],
@@ -646,3 +657,87 @@ void harness(void)
     CANARY("vector(first, last) end reachable");
 }
 ''')
+
+# ---------------------------------------------------------------------------------------------- vector(iterator a, const iterator b)
+unit('ctor_iter',
+     ['igris::vector::vector(iterator, const iterator)', 'igris::vector::push_back'],
+     ['AD', 'CB'],
+     'vector(a, b) over a foreign range of at most 3 live elements (the push_back loop is unwound; push_back itself is proved for an arbitrary VEC state by '
+     'unit push_back): size() == b - a, element i is a copy of a[i], every intermediate block (capacity grows by one per element) is released, VEC holds',
+     '''
+void harness(void)
+{
+    struct vector c;
+    WIT(size_t, n); WIT(size_t, k); WIT(size_t, j);
+    WIT_ARR(int, content, 4);
+    c02_init(k, j);
+    __CPROVER_assume(n <= 3);
+    ELEM src[3];
+    for (size_t i = 0; i < 3; i++) ELEM_SET(&src[i], ELEM_LIVE, content[i] & C02_VMAX);
+
+    vector_defaults(&c);
+    vector_ctor_iter(&c, src, src + n);
+
+    c02_vec_check(&c);
+    c02_no_leak(&c, NULL);
+    __CPROVER_assert(c.m_size == n, "value: vector(a, b): size() == b - a");
+    if (k < n) __CPROVER_assert(ELEM_V(&c.m_data[k]) == (content[k] & C02_VMAX), "value: vector(a, b): element i is a copy of a[i]");
+    if (k < n) __CPROVER_assert(ELEM_ST(&src[k]) == ELEM_LIVE, "frame: vector(a, b): the source range is untouched");
+    CANARY("vector(a, b) end reachable");
+}
+''', extra={'kind': 'bounded', 'bound': 'source range of at most 3 elements (outer push_back loop unwound 4 times with unwinding assertion; the loops of '
+                                          'changeBuffer / array_destructor inside keep their loop contracts, blocks are of symbolic size)',
+               'unwindset': ['vector_ctor_iter.0:4']})
+
+# ---------------------------------------------------------------------------------------------- insert(pos, first, last)
+unit('insert_range',
+     ['igris::vector::insert(iterator, const_iterator, const_iterator)', 'std::move_backward stub', 'std::copy stub', 'std::prev stub'],
+     ['NOREALLOC', 'AD', 'CB'],
+     'insert(pos, first, last), begin() <= pos <= end(), [first, last) a range of live elements outside the vector (the ranges std::vector::insert '
+     'accepts) or an empty range: size() grows by last-first, elements before pos unchanged, [pos, pos+n) are copies of [first, last), the old elements '
+     'from pos on move up by n; only live elements are assigned to, new slots are constructed, every access stays inside its block',
+     '''
+void harness(void)
+{''' + PRE + '''
+    WIT(size_t, pos); WIT(int, foreign); WIT(size_t, fi); WIT(size_t, m);
+    WIT_ARR(int, scontent, 4);
+    __CPROVER_assume(pos <= size && m <= C02_MAXN && size + m <= C02_MAXN);
+    __CPROVER_assume(REALLOC ? size + m > cap : size + m <= cap);   /* case split (params): with / without reallocation */
+    ELEM *src = NULL;
+    const ELEM *first, *last;
+    if (foreign) {
+        src = (ELEM *)NEW_OBJ(m * sizeof(ELEM));
+#ifdef WITNESS_MODE
+        for (size_t i = 0; i < m; i++) ELEM_SET(&src[i], ELEM_LIVE, scontent[i]);
+#else
+        if (k < m) __CPROVER_assume(ELEM_ST(&src[k]) == ELEM_LIVE);
+        if (k >= pos && k - pos < m && k - pos != k) __CPROVER_assume(ELEM_ST(&src[k - pos]) == ELEM_LIVE);
+#endif
+        first = src; last = src + m;
+    } else {
+        /* an empty range given by two equal iterators into the vector itself */
+        __CPROVER_assume(!isnull && fi <= size && m == 0);
+        first = last = v.m_data + fi;
+    }
+    /* known finding: only an empty range of own iterators is handled correctly */
+    C02_KF(KF_C02_insert_range, foreign);
+    __CPROVER_assume(k < m ? j == 0 : j == k - m);      /* second tracked slot = the source of slot k (value bookkeeping only) */
+    ELEM *d0 = v.m_data;
+    int old_k = k < size ? ELEM_V(&v.m_data[k]) : 0;
+    int old_j = j < size ? ELEM_V(&v.m_data[j]) : 0;
+    int src_k = (foreign && k >= pos && k - pos < m) ? ELEM_V(&src[k - pos]) : 0;
+
+    ELEM *r = vector_insert_range(&v, v.m_data + pos, first, last);
+
+    c02_vec_check(&v);
+    c02_no_leak(&v, NULL);
+    __CPROVER_assert(v.m_size == size + m, "value: insert(pos, first, last): size() grows by last - first");
+    __CPROVER_assert(r == v.m_data + pos, "value: insert(pos, first, last): returns an iterator to the first inserted element");
+    if (k < pos) __CPROVER_assert(ELEM_V(&v.m_data[k]) == old_k, "value: insert(pos, first, last): elements before pos keep their value and position");
+    if (k >= pos && k - pos < m) __CPROVER_assert(ELEM_V(&v.m_data[k]) == src_k, "value: insert(pos, first, last): [pos, pos+n) are copies of [first, last)");
+    if (k >= pos + m && k < size + m) __CPROVER_assert(ELEM_V(&v.m_data[k]) == old_j, "value: insert(pos, first, last): elements from pos on move up by n");
+    if (m == 0) __CPROVER_assert(v.m_data == d0 && v.m_capacity == cap, "value: insert(pos, first, last): an empty range changes nothing");
+    CANARY("insert(pos, first, last) end reachable");
+}
+''', kf=['C02_insert_range'], extra=dict(SPLIT, params_thorough={'REALLOC': [0]}),
+     assumptions=['insert_range: only the case size()+n <= capacity() is run (an empty range never reallocates; the known finding is probed without reallocation)', 'insert_range: the empty own-iterator range is taken on a vector that owns a block (nullptr - nullptr is defined in C++, not in C)'], need_j=True)
